@@ -84,8 +84,8 @@ Proof. exact inline_image_sound. Qed.
    is the same operations up to the difference the property allows (an integral real below 2^63 is an
    integer: [intnorm_op]).  Outside ([known_dec], decidable on the decoded operations): a real whose
    spelling overflows f32 (OPEN finding C14-real-overflow), an operator that is exactly null / true /
-   false or a lone BI (returned only for a malformed token such as "null1"), and inline-image data longer
-   than isize::MAX (impossible in Rust). *)
+   false or a lone BI (OPEN finding C14-keyword-residual: returned only for a malformed token such as
+   "null1" or "true" + 0xFF), and inline-image data longer than isize::MAX (impossible in Rust). *)
 Theorem C14_decode_encode_decode :
   forall canon, canon_spec canon ->
   forall bs ops, decode_content bs = DecOk ops -> Forall (fun op => known_dec op = false) ops ->
@@ -93,6 +93,16 @@ Theorem C14_decode_encode_decode :
       decode_content (encode_content (map (canon_op canon) ops)) = DecOk ops2 /\
       map (canon_op canon) ops2 = map intnorm_op (map (canon_op canon) ops).
 Proof. exact decode_encode_decode. Qed.
+
+(* the same, with the excluded class as a decidable predicate on the INPUT bytes ([known_input bs]: some
+   operation bs decodes to is in [known_dec]); props/c14.py [classify] mirrors it *)
+Theorem C14_decode_encode_decode_input :
+  forall canon, canon_spec canon ->
+  forall bs ops, decode_content bs = DecOk ops -> known_input bs = false ->
+    exists ops2,
+      decode_content (encode_content (map (canon_op canon) ops)) = DecOk ops2 /\
+      map (canon_op canon) ops2 = map intnorm_op (map (canon_op canon) ops).
+Proof. exact decode_encode_decode_input. Qed.
 
 (* the float assumptions are consistent: exact decimal canonicalisation (drop "+", supply the leading
    zero, drop trailing zeros of the fraction) satisfies them *)
@@ -134,6 +144,22 @@ Theorem C14_keyword_residual_refuted :
   known_dec (mkop "null" []) = true /\
   decode_content (encode_content [mkop "null" []; mkop "x" [OInt 1]]) = DecOk [mkop "x" [ONull; OInt 1]].
 Proof. exact kw_residual_witness. Qed.
+
+(* KnownClass witnesses on the input: the witnesses of both open findings and the other shapes of the
+   keyword residual ("true" + 0xFF: the input the thorough tier found; a lone BI glued to a digit, whose
+   re-encoding does not decode at all) are inside; a keyword followed by a delimiter or an operator
+   character, or inside a name / a string, and the example stream are outside *)
+Theorem C14_known_input_witness :
+  known_input (bs "null1 x") = true /\ known_input overflow_witness = true /\
+  known_input (bs "true" ++ [xff] ++ bs " cm") = true /\
+  decode_content (bs "true" ++ [xff] ++ bs " cm") = DecOk [mkop "true" []] /\
+  decode_content (encode_content [mkop "true" []]) = DecOk [] /\
+  known_input (bs "BI1 ") = true /\ decode_content (bs "BI1 ") = DecOk [mkop "BI" []] /\
+  decode_content (encode_content [mkop "BI" []]) = DecErr /\
+  known_input (bs "1 false.5 x") = true /\
+  known_input (bs "null(a) Tj") = false /\ known_input (bs "true/N nullx") = false /\
+  known_input (bs "/null1 (true2) BI* [false] BIx") = false /\ known_input ex_stream = false.
+Proof. exact known_input_witness. Qed.
 
 (* (c) and for any inline image of the class, within a sequence or alone (instance of C14_rt) *)
 Theorem C14_inline_image_rt :
@@ -267,6 +293,8 @@ Print Assumptions C14_canon_spec_consistent.
 Print Assumptions C14_decode_encode_decode_example.
 Print Assumptions C14_real_overflow_refuted.
 Print Assumptions C14_keyword_residual_refuted.
+Print Assumptions C14_decode_encode_decode_input.
+Print Assumptions C14_known_input_witness.
 Print Assumptions C14_inline_image_rt.
 Print Assumptions C14_object_rt.
 Print Assumptions C14_separator_rule.
